@@ -194,7 +194,7 @@ def run_impl(steps, limit=5.0):
 # ------------------------------------------------------------------ model side
 
 COVER = False           # set by a check that wants the theorem-coverage counts
-COVER_COUNTS = {'evaluations': 0, 'balance_theorem_applies': 0, 'optimize_theorem_applies': 0, 'resolve_theorem_applies': 0, 'position_theorem_applies': 0}
+COVER_COUNTS = {'evaluations': 0, 'balance_theorem_applies': 0, 'optimize_theorem_applies': 0, 'resolve_theorem_applies': 0, 'position_theorem_applies': 0, 'neutral_theorem_applies': 0}
 
 
 def model_lines(steps):
@@ -347,6 +347,7 @@ def run_model_cases(cases_steps):
             COVER_COUNTS['optimize_theorem_applies'] += ' F1' in rp
             COVER_COUNTS['resolve_theorem_applies'] += ' C1' in rp
             COVER_COUNTS['position_theorem_applies'] += ' T1' in rp
+            COVER_COUNTS['neutral_theorem_applies'] += ' N1' in rp
     res = []
     for steps, (off, n) in zip(cases_steps, spans):
         # skip the reply to `reset` and to auxiliary lines
